@@ -376,6 +376,38 @@ def random_strategy(third: str = "z"):
     return st.recursive(leaf, ext, max_leaves=10)
 
 
+def payload_clause(col: Collector, seed: int, n: int) -> None:
+    """The signatures as published: `parameters_sig` of the inspection payload must carry, under each swept parameter's
+    own name, exactly the signature of that parameter's expression (two parameters, declared in either order)."""
+    import random
+
+    from semantiva.inspection import build_inspection_payload
+    from semantiva.metadata.semantic_id import normalize_expression_sig_v1
+
+    from ..lib import observe
+
+    observe.ensure_registered()
+    rnd = random.Random(seed)
+    pool = [e for size, es in enum_ext(3).items() for e in es if size >= 2]
+    for i in range(n):
+        e1, e2 = rnd.choice(pool), rnd.choice(pool)
+        s1, s2 = show(e1), show(e2)
+        params = {"q": s2, "p": s1} if i % 2 else {"p": s1, "q": s2}
+        cfg = {"extensions": ["verif.lib.components"], "pipeline": {"nodes": [
+            {"processor": "FloatDataSource"},
+            {"processor": "VEchoProbe", "context_key": "e", "derive": {"parameter_sweep": {"parameters": params, "variables": {"x": [1.0, 2.0], "y": [0.5]}}}}]}}
+        case = {"a": s1, "b": s2, "payload": True, "order": list(params)}
+        col.count(case, ["payload", "declared:" + "".join(params)], True, key="payload:" + s1 + "|" + s2 + "|" + "".join(params))
+        try:
+            sigs = build_inspection_payload(cfg)["pipeline_spec_canonical"]["nodes"][1]["preprocessor_metadata"]["derive"]["parameter_sweep"]["parameters_sig"]
+        except Exception as exc:  # noqa: BLE001
+            col.add("payload_signatures_unavailable", {"exc": type(exc).__name__}, case, repr(exc)[:160])
+            continue
+        want = {"p": normalize_expression_sig_v1(s1), "q": normalize_expression_sig_v1(s2)}
+        if sigs != want:
+            col.add("payload_signature_not_of_own_expression", {"declared": "".join(params)}, case, sigs, want)
+
+
 def plan(tier: str, seed: int, scale: float = 1.0) -> List[Dict[str, Any]]:
     of = 16
     n_poly = 7 if tier == "quick" else 8
@@ -388,6 +420,7 @@ def plan(tier: str, seed: int, scale: float = 1.0) -> List[Dict[str, Any]]:
 
     ensure_atheris()
     specs += [{"kind": "fuzz", "seed": seed * 100 + 50 + i, "n": nf, "third": "X" if i % 2 else "z"} for i in range(2 if tier == "quick" else 12)]
+    specs.append({"kind": "payload", "seed": seed, "n": int((400 if tier == "quick" else 4000) * scale)})
     return specs
 
 
@@ -397,6 +430,9 @@ def run_shard(spec: Dict[str, Any]) -> Dict[str, Any]:
 
         return run_child("c12", spec)
     col = Collector(max_hashes=3000000, hash_len=10)
+    if spec["kind"] == "payload":
+        payload_clause(col, spec["seed"], spec["n"])
+        return col.result()
     cx = Ctx(col)
     cx.third = spec.get("third", "z")
     if spec["kind"] in ("poly", "ext"):
@@ -434,6 +470,25 @@ def replay(case: Dict[str, Any]) -> List[Dict[str, Any]]:
     from semantiva.metadata.semantic_id import normalize_expression_sig_v1 as sig
 
     out = []
+    if case.get("payload"):
+        col = Collector()
+        import random as _r  # noqa: F401
+
+        from semantiva.inspection import build_inspection_payload
+        from semantiva.metadata.semantic_id import normalize_expression_sig_v1 as _sig
+
+        from ..lib import observe
+
+        observe.ensure_registered()
+        params = {k: (case["a"] if k == "p" else case["b"]) for k in case.get("order", ["p", "q"])}
+        cfg = {"extensions": ["verif.lib.components"], "pipeline": {"nodes": [
+            {"processor": "FloatDataSource"},
+            {"processor": "VEchoProbe", "context_key": "e", "derive": {"parameter_sweep": {"parameters": params, "variables": {"x": [1.0, 2.0], "y": [0.5]}}}}]}}
+        sigs = build_inspection_payload(cfg)["pipeline_spec_canonical"]["nodes"][1]["preprocessor_metadata"]["derive"]["parameter_sweep"]["parameters_sig"]
+        want = {"p": _sig(case["a"]), "q": _sig(case["b"])}
+        if sigs != want:
+            out.append({"check": "payload_signature_not_of_own_expression", "features": {"declared": "".join(params)}, "observed": sigs, "expected": want, "case": case})
+        return out
     a, b = case["a"], case["b"]
     sa, sb = sig(a), sig(b)
     third = "X" if ("X" in a or "X" in b) else "z"
@@ -455,5 +510,5 @@ def shrink_candidates(case):
 
 
 def label_requirements(tier: str) -> Dict[str, Any]:
-    return {"fuzz": 5000, "chained_comparison": 500, "case_differing_names": 200, "variant:mirror": 1000, "variant:random_perm": 500, "mutation:swap": 1000, "mutation:const": 1000,
+    return {"payload": 200, "fuzz": 5000, "chained_comparison": 500, "case_differing_names": 200, "variant:mirror": 1000, "variant:random_perm": 500, "mutation:swap": 1000, "mutation:const": 1000,
             "mutation:var": 1000, "mutation:func": 100, "poly": 10000, "ext": 5000}
